@@ -28,6 +28,7 @@ func checkC17(r *Run) propMeta {
 	checkSubmitReceive(r)
 	checkTrunkWrites(r)
 	checkTerminalAfterFilter(r, r.Pkg("ops"))
+	checkTrackerAfterFilter(r, r.Pkg("ops"))
 	r.Floor("C17-R1-termination", 4)
 	r.Floor("C17-R2-join-cancel", 5)
 	r.Floor("C17-R3-pipe", 9)
